@@ -80,7 +80,8 @@ Proof.
   - specialize (IHb L ctx st). destruct (eval L ctx body st) as [[o st1] m]. cbn in IHb. subst st1.
     destruct o; [reflexivity|].
     destruct (try_catch p); [|reflexivity].
-    specialize (IHh L (Some v) st). destruct (eval L (Some v) h st) as [[o2 st2] m2]. exact IHh.
+    specialize (IHh L (Some v) st). destruct (eval L (Some v) h st) as [[o2 st2] m2]. cbn in IHh. subst st2.
+    destruct o2; [reflexivity|]. destruct (try_catch p0); reflexivity.
   - destruct ctx; reflexivity.
 Qed.
 
@@ -108,7 +109,8 @@ Proof.
     destruct o; [exact Hb|].
     destruct (try_catch p); [|exact Hb].
     pose proof (IHh L (Some v) st HL Hc) as Hh.
-    destruct (eval L (Some v) h st) as [[o2 st2] m2]. cbn in *. lia.
+    destruct (eval L (Some v) h st) as [[o2 st2] m2].
+    destruct o2; [cbn in *; lia|]. destruct (try_catch p0); cbn in *; lia.
   - destruct ctx; exact Hc.
 Qed.
 
@@ -200,7 +202,10 @@ Proof.
     destruct o; [exact I|].
     pose proof (try_catch_safe p IHb) as Ht. destruct (try_catch p) as [v|q]; [|exact Ht].
     assert (ctx_safe (Some v)) as Hv by (unfold ctx_safe; congruence).
-    specialize (IHh L (Some v) st1 Hlh Hv). destruct (eval L (Some v) h st1) as [[o2 st2] m2]. exact IHh.
+    specialize (IHh L (Some v) st1 Hlh Hv). destruct (eval L (Some v) h st1) as [[o2 st2] m2]. cbn [fst] in IHh.
+    destruct o2; [exact I|].
+    pose proof (try_catch_safe p0 IHh) as Ht2. destruct (try_catch p0) as [v2|q2]; cbn [fst]; [|exact Ht2].
+    unfold safe. cbn [eject base_safe]. destruct v2; try reflexivity. exfalso. apply Ht2. reflexivity.
   - destruct ctx as [v|]; [|exact I]. cbn [fst]. unfold safe. cbn [eject].
     destruct v; try reflexivity. exfalso. apply Hc. reflexivity.
 Qed.
@@ -231,7 +236,10 @@ Proof.
   - assert (ctx_safe (Some v)) as Hc by (unfold ctx_safe; intro X; injection X as ->; exact (Hv _ eq_refl eq_refl)).
     pose proof (eval_safe h L (Some v) [0] Hh Hc) as H.
     destruct (eval L (Some v) h [0]) as [[o st] m]. cbn [fst] in H.
-    destruct o; [discriminate|]. destruct (catch_panic_js_safe p0 H) as [cl ->]. discriminate.
+    destruct o; [discriminate|].
+    pose proof (try_catch_safe p0 H) as Ht2. destruct (try_catch p0) as [v2|q2].
+    + destruct v2; try discriminate. exfalso. apply Ht2. reflexivity.
+    + destruct (catch_panic_js_safe q2 Ht2) as [cl ->]. discriminate.
   - destruct (catch_panic_js_safe r Hn) as [cl ->]. discriminate.
 Qed.
 
